@@ -1,6 +1,7 @@
 import time, vf
 PID = "C01"
 HS = vf.VERIF + "/checks/C01/sched_harness.cpp"
+NSCEN = 9
 HH = vf.VERIF + "/checks/C01/hist_harness.cpp"
 SCHED = [vf.VERIF + "/engine/sched/sched.cpp", vf.VERIF + "/engine/sched/log_stub.cpp"]
 STUB = [vf.VERIF + "/engine/sched/log_stub.cpp"]
@@ -12,20 +13,34 @@ def main(tier, args):
     tsan = vf.build("C01/sched_tsan", [HS], srcs, mode="tsan", plain_srcs=SCHED)
     hist = vf.build("C01/hist_asan", [HH], srcs, mode="asan", plain_srcs=STUB)
     res = vf.Result(); log = open(vf.BUILD + "/C01/log.txt", "w")
-    bp, ba, bt, depth, dl = (2, 1, 1, 4, 90) if tier == "quick" else (3, 2, 2, 6, 1200)
+    bp, ba, bt, depth, sdepth, dl = (2, 1, 1, 4, 3, 90) if tier == "quick" else (3, 2, 2, 6, 4, 1200)
     jobs = []
     for e in ("epoll", "select"):
-        jobs.append(("hist:%s" % e, [hist, e, str(depth)]))
-        for s in range(6):
+        jobs.append(("hist:%s" % e, [hist, e, str(depth), str(sdepth)]))
+        for s in range(NSCEN):
             jobs.append(("plain:%s_s%d" % (e, s), [plain, e, str(s), str(bp)]))
             jobs.append(("asan:%s_s%d" % (e, s), [asan, e, str(s), str(ba)]))
             jobs.append(("tsan:%s_s%d" % (e, s), [tsan, e, str(s), str(bt)]))
+    # longest jobs first (measured): plain scenarios 4, 7, 2, then the history searches
+    heavy = {"plain:epoll_s4": 0, "plain:select_s4": 0, "plain:epoll_s7": 1, "plain:select_s7": 1, "plain:epoll_s2": 2, "plain:select_s2": 2, "hist:epoll": 3, "hist:select": 3}
+    jobs.sort(key=lambda j: heavy.get(j[0], 9))
     if args.only: jobs = [j for j in jobs if j[0].split(":")[1] == args.only or j[0] == args.only]
     env = {"VERIF_DEADLINE_S": str(dl), "VERIF_WORKERS": "3", "TSAN_OPTIONS": "report_signal_unsafe=0:exitcode=0"}
     vf.run_procs(res, jobs, env=env, log=log, jobs=6)
     vf.finish(PID, tier, res, t0,
-              rule="(S) stateless DFS over all interleavings of 1-2 submitting threads (runInLoop) with the real loop's start/iteration/exit/re-run/destruction on both back-ends, "
+              rule="(S) stateless DFS over all interleavings of 1-2 submitting threads with the real loop's start/iteration/exit/re-run/destruction on both back-ends, "
                    "sync points = recursive mutex, eventfd read/write, epoll_wait/select; preemption bound %d (plain), %d (ASan), %d (TSan on every schedule); deadlock with queued work = lost wake-up. "
-                   "(H) BFS over all single-thread histories of runNext/runInLoop/run with 7 callable behaviours (spawn child via either entry point, cancel following/previous/own id in batch, exit), cancel(id), loop passes (forever/once), then destruction; depth %d, canonical state = queue contents + wake-up flag" % (bp, ba, bt, depth),
-              assumptions=["cross-thread submission uses runInLoop only; exitLoop/cancel are issued on the loop thread (DESIGN 1.7)",
-                           "an idle loop in the single-threaded history harness receives an exit request (interposed epoll_wait/select)"])
+                   "9 scenarios: foreign runInLoop (both overloads) before/while/after the loop runs, exit + re-run (2 and 3 runs), submissions around exit; "
+                   "scenario 6 = a loop-thread callable of a loop that stays alive submits runInLoop + a runNext->runNext chain and the submitter waits for all of them before it offers any further wake-up; "
+                   "scenario 7 = loop-thread runInLoop/runNext immediately cancelled (cancel must return true, callable never runs, second cancel false) while a foreign thread submits; "
+                   "scenario 8 = foreign run(Func&&), run(const Func&) and runInLoop(const Func&) into a running, possibly sleeping loop, each awaited before the next wake-up source. "
+                   "(H) BFS over all single-thread histories of runNext/runInLoop/run (alternating Func&& / const Func& overloads) with 8 callable behaviours (spawn child via either entry point, "
+                   "4-generation chain runNext->runInLoop->plain, cancel following/previous/own id in batch, exit), cancel(id), loop passes (forever/once), explicit cleanup() between passes, then destruction; depth %d, "
+                   "canonical state = queue contents + wake-up flag + status of the cancellable handles. Model oracles: exactly once unless cancel returned true, order per entry point, nothing submitted before the stop "
+                   "is pending after runLoop() returned, and the loop never goes to sleep (blocking epoll_wait/select with nothing ready) while the model still owes a callable. "
+                   "Size lanes: for N in {1,99,100,101,102,201,1000} a BFS of depth %d over {a callable that submits N callables through its own entry point, N callables submitted from outside "
+                   "(runNext / runInLoop), exit, cancel, pass forever/once, cleanup(), destruction}: N callables of ONE generation pending at stop / cleanup / destruction" % (bp, ba, bt, depth, sdepth),
+              assumptions=["cross-thread submission uses runInLoop, or run() while the loop is known to be running and cannot be stopped by anyone else (loop.h documents run() as the auto-selecting entry point); exitLoop/cancel/cleanup are issued on the loop thread (DESIGN 1.7)",
+                           "an idle loop in the single-threaded history harness receives an exit request (interposed epoll_wait/select) - after the model has confirmed that nothing is owed",
+                           "callables re-submit through at most 4 generations and at most 1000 callables are pending in one generation (the shutdown drain is documented as bounded to 100 generations, not to a number of callables)",
+                           "cleanup() is only required not to lose, double or reorder callables; what it must run by itself is not part of the statement"])
